@@ -51,7 +51,8 @@ def main():
         print('%s/%s confirmed=%s caught=%s  %s' % (prop, k, res.get('demo_clean_rc') == 0 and res.get('demo_patched_rc', 0) != 0
                                                   and res.get('suite_same', True), res.get('caught'),
                                                   json.dumps(res.get('checks', {}))[:400]), flush=True)
-    with open('/tmp/eval-%s-%s.json' % (os.environ.get('WT_PREFIX', 'wt'), prop), 'w') as f:
+    # a partial re-run (explicit k list) never overwrites the full evaluation
+    with open('/tmp/eval-%s-%s%s.json' % (os.environ.get('WT_PREFIX', 'wt'), prop, '-partial' if sys.argv[2:] else ''), 'w') as f:
         json.dump(out, f, indent=1)
 
 
